@@ -163,27 +163,25 @@ theorem ndWrite_closed {h : Heap} (hc : Closed h) (b o : Nat) (ys : List Int) : 
   · exact closed_write hc (by simp [Node.refs])
   · exact hc
 
-theorem ndItem_closed {h : Heap} (hc : Closed h) {b : Ref} (hb : b < h.size) (o : Nat) (inner : List Nat) :
+theorem ndItem_closed {h : Heap} (hc : Closed h) (b : Ref) (o : Nat) (inner : List Nat) :
     Closed (ndItem h b o inner).1 := by
   obtain ⟨n, h1, _, hn⟩ := ndItem_fst h b o inner
   rw [h1]
   apply closed_push hc
   rcases hn with ⟨rfl, _⟩ | ⟨rfl, _⟩
   · simp [Node.refs]
-  · simp [Node.refs, hb]
+  · simp [Node.refs]
 
 theorem ndPre_closed (inPlace : Bool) {h : Heap} (hc : Closed h) {tree b off : Nat} {shape : List Nat}
     (hn : h[tree]? = some (.nd b off shape)) :
     Closed (ndPre inPlace h tree b off shape).1 ∧ h.size ≤ (ndPre inPlace h tree b off shape).1.size ∧
-      (ndPre inPlace h tree b off shape).2.1 < (ndPre inPlace h tree b off shape).1.size ∧
-      (ndPre inPlace h tree b off shape).2.2.1 < (ndPre inPlace h tree b off shape).1.size := by
-  have hb : b < h.size := hc.refs_lt hn b (by simp [Node.refs])
+      (ndPre inPlace h tree b off shape).2.1 < (ndPre inPlace h tree b off shape).1.size := by
   unfold ndPre
   cases inPlace
   · simp only [Bool.false_eq_true, if_false, ndCopy_fst, ndCopy_snd, Array.size_push]
-    refine ⟨closed_push (closed_push hc (by simp [Node.refs])) (by simp [Node.refs]), by omega, by omega, by omega⟩
+    refine ⟨closed_push (closed_push hc (by simp [Node.refs])) (by simp [Node.refs]), by omega, by omega⟩
   · simp only [if_true]
-    exact ⟨hc, Nat.le_refl _, lt_size_of_get hn, hb⟩
+    exact ⟨hc, Nat.le_refl _, lt_size_of_get hn⟩
 
 theorem setNd_closed {m : Nat} {R : Heap → Ref → Res Ref} (hR : GoodRec m R) (inPlace : Bool) {h : Heap}
     (hc : Closed h) (hm : m ≤ h.size) {tree b off : Nat} {shape : List Nat}
@@ -192,7 +190,7 @@ theorem setNd_closed {m : Nat} {R : Heap → Ref → Res Ref} (hR : GoodRec m R)
       ∀ c', (setNd R inPlace h tree b off shape k).2 = .ok c' →
         c' < (setNd R inPlace h tree b off shape k).1.size := by
   rw [setNd_unfold]
-  obtain ⟨hpc, hpsz, hpres, hpb⟩ := ndPre_closed inPlace hc hn
+  obtain ⟨hpc, hpsz, hpres⟩ := ndPre_closed inPlace hc hn
   have herr : ∀ e : ErrKind, Closed ((ndPre inPlace h tree b off shape).1, (Except.error e : Except ErrKind Ref)).1 ∧
       h.size ≤ ((ndPre inPlace h tree b off shape).1, (Except.error e : Except ErrKind Ref)).1.size ∧
       ∀ c', ((ndPre inPlace h tree b off shape).1, (Except.error e : Except ErrKind Ref)).2 = .ok c' →
@@ -207,7 +205,7 @@ theorem setNd_closed {m : Nat} {R : Heap → Ref → Res Ref} (hR : GoodRec m R)
       · split
         · exact herr _
         · rename_i n inner _ i _ _ _ j _
-          have hic := ndItem_closed hpc hpb ((ndPre inPlace h tree b off (n :: inner)).2.2.2 + j * prod inner) inner
+          have hic := ndItem_closed hpc (ndPre inPlace h tree b off (n :: inner)).2.2.1 ((ndPre inPlace h tree b off (n :: inner)).2.2.2 + j * prod inner) inner
           obtain ⟨nn, hi1, hi2, _⟩ := ndItem_fst (ndPre inPlace h tree b off (n :: inner)).1
             (ndPre inPlace h tree b off (n :: inner)).2.2.1
             ((ndPre inPlace h tree b off (n :: inner)).2.2.2 + j * prod inner) inner
